@@ -763,18 +763,58 @@ func parserNonEmptyLists(c *Ctx, r *RuleResult) map[string]bool {
 		if g == nil {
 			return false
 		}
-		hasSome, hasMany := false, false
-		allInstrs(g, func(in ssa.Instruction) {
-			if ci, ok := in.(ssa.CallInstruction); ok {
-				switch ci.Common().StaticCallee() {
-				case some:
-					hasSome = true
-				case many:
-					hasMany = true
-				}
+		// the start token of the `some` repetition a function runs (and nothing through `many`), -1 if none
+		someStart := func(h *ssa.Function) int64 {
+			start, hasMany := int64(-1), false
+			if h == nil {
+				return -1
 			}
-		})
-		if !hasSome || hasMany {
+			allInstrs(h, func(in ssa.Instruction) {
+				if ci, ok := in.(ssa.CallInstruction); ok {
+					switch ci.Common().StaticCallee() {
+					case some:
+						if len(ci.Common().Args) >= 2 {
+							if k, ok := constNum(ci.Common().Args[1]); ok {
+								start = k
+							}
+						}
+					case many:
+						hasMany = true
+					}
+				}
+			})
+			if hasMany {
+				return -1
+			}
+			return start
+		}
+		hasSome := someStart(g) >= 0
+		// or g delegates, on the side of its test where the opening token is next, to a function that runs the repetition
+		var delegate ssa.CallInstruction
+		delegStart := int64(-1)
+		if !hasSome {
+			allInstrs(g, func(in ssa.Instruction) {
+				ci, ok := in.(ssa.CallInstruction)
+				if !ok {
+					return
+				}
+				h := ci.Common().StaticCallee()
+				if h == nil || h == g || h.Pkg != g.Pkg {
+					return
+				}
+				if k := someStart(h); k >= 0 {
+					// its result is what g returns
+					for _, ret := range returnsOf(g) {
+						for _, rv := range ret.Results {
+							if stripChange(rv) == ci.Value() {
+								delegate, delegStart = ci, k
+							}
+						}
+					}
+				}
+			})
+		}
+		if !hasSome && delegate == nil {
 			return false
 		}
 		// `some` accepts an absent list; the list is required only when the function itself reports an error unless
@@ -783,11 +823,20 @@ func parserNonEmptyLists(c *Ctx, r *RuleResult) map[string]bool {
 		required := false
 		allInstrs(g, func(in ssa.Instruction) {
 			ci, ok := in.(ssa.CallInstruction)
-			if !ok || ci.Common().StaticCallee() != some || len(ci.Common().Args) < 2 {
+			if !ok {
 				return
 			}
-			start, okS := constNum(ci.Common().Args[1])
-			if !okS {
+			var start int64
+			switch {
+			case ci.Common().StaticCallee() == some && len(ci.Common().Args) >= 2:
+				k, okS := constNum(ci.Common().Args[1])
+				if !okS {
+					return
+				}
+				start = k
+			case delegate != nil && in == ssa.Instruction(delegate):
+				start = delegStart
+			default:
 				return
 			}
 			for _, cd := range condsAt(in.Block()) {
